@@ -497,4 +497,280 @@ theorem witness_loop_complete (n k : Nat) (P : Nat → List Vec) (hP : ∀ o, o 
       exact env_ge _ _ _ _ (List.mem_map.mpr ⟨u, hu, rfl⟩)
     · exact (hnw _ (inv.vars u hu _ (mem_allVars k P u o i ho hi hne))).2 b hb
 
+
+/-! ## (2) LinearSupport: Cheng's convexity argument, the agenda loop's invariants, and exactness under the stopping test
+
+  What is PROVED: (a) convexity lemma `cheng_region` — on a region where one vector of the current set is maximal, ε-exactness at
+  points propagates to all their convex combinations; (b) `linear_support_exact_of_cover` — if the examined points X cover the
+  partition induced by the current set (every belief is a convex combination of points of X lying in one common region: that is what
+  "X contains all vertices of the partition" provides), ε-exactness at X is ε-exactness on the whole simplex; (c) for the agenda
+  loop as written with ANY vertex oracle: every support ever held is a genuine backup (`ls_sound`), and when the loop breaks every
+  vertex of the last batch has passed the stopping test (`ls_break_tested`).
+  What is ASSUMED (hypothesis `VertexCover`, not proved): that the vertex oracle (repaired `findVerticesNaive`, whose systems are
+  characterised by `fvn_rows_sound`) together with the agenda bookkeeping really presents all vertices of the final partition —
+  Minkowski's theorem for the regions plus the geometric claim behind the "obsolete vertex" removal. -/
+
+theorem dot_combo (n : Nat) (L : List (Rat × Vec)) (α : Vec) :
+    dot n (combo n L) α = (L.map (fun p => p.1 * dot n p.2 α)).sum := by
+  unfold dot
+  have e : sumTo n (fun s => (combo n L).get s * α.get s) = sumTo n (fun s => (L.map (fun p => p.1 * p.2.get s)).sum * α.get s) := by
+    apply sumTo_congr; intro s hs; unfold combo; rw [mkVec_get _ hs]
+  rw [e]
+  clear e
+  induction L with
+  | nil => simp only [List.map_nil, List.sum_nil, zero_mul]; exact sumTo_zero n
+  | cons p L ih =>
+    simp only [List.map_cons, List.sum_cons]
+    rw [← ih, ← sumTo_mul_left, ← sumTo_add]
+    apply sumTo_congr; intro s _; ring
+
+theorem dot_congr_left (n : Nat) (b b' α : Vec) (h : ∀ s, s < n → b.get s = b'.get s) : dot n b α = dot n b' α := by
+  unfold dot; apply sumTo_congr; intro s hs; rw [h s hs]
+
+theorem env_congr_left (n : Nat) (Γ : List Vec) (b b' : Vec) (h : ∀ s, s < n → b.get s = b'.get s) : env n Γ b = env n Γ b' := by
+  unfold env
+  congr 1
+  apply List.map_congr_left
+  intro α _; exact dot_congr_left n b b' α h
+
+theorem wsum_le (L : List (Rat × Vec)) (f g : Vec → Rat) (h0 : ∀ p ∈ L, 0 ≤ p.1) (h : ∀ p ∈ L, f p.2 ≤ g p.2) :
+    (L.map (fun p => p.1 * f p.2)).sum ≤ (L.map (fun p => p.1 * g p.2)).sum := by
+  induction L with
+  | nil => simp
+  | cons p L ih =>
+    simp only [List.map_cons, List.sum_cons]
+    have := ih (fun q hq => h0 q (List.mem_cons_of_mem _ hq)) (fun q hq => h q (List.mem_cons_of_mem _ hq))
+    have := mul_le_mul_of_nonneg_left (h p List.mem_cons_self) (h0 p List.mem_cons_self)
+    linarith
+
+/-- the upper envelope of a list is convex -/
+theorem env_convex (n : Nat) (Γ : List Vec) (hΓ : Γ ≠ []) (L : List (Rat × Vec)) (h0 : ∀ p ∈ L, 0 ≤ p.1) :
+    env n Γ (combo n L) ≤ (L.map (fun p => p.1 * env n Γ p.2)).sum := by
+  obtain ⟨α, hα, e⟩ := env_attained n Γ (combo n L) hΓ
+  rw [e, dot_combo]
+  exact wsum_le L (fun x => dot n x α) (fun x => env n Γ x) h0 (fun p _ => env_ge n Γ p.2 α hα)
+
+theorem wsum_add_const (L : List (Rat × Vec)) (f : Vec → Rat) (ε : Rat) :
+    (L.map (fun p => p.1 * (f p.2 + ε))).sum = (L.map (fun p => p.1 * f p.2)).sum + (L.map (fun p => p.1)).sum * ε := by
+  induction L with
+  | nil => simp
+  | cons p L ih => simp only [List.map_cons, List.sum_cons, ih]; ring
+
+/-- **cheng_region** (the convexity lemma): let `α ∈ Γ` be maximal at every point `x_i` (they lie in α's region), and let the true surface
+    `Γ'` exceed `Γ` by at most ε at every `x_i`.  Then it exceeds `Γ` by at most ε at every convex combination of the `x_i`. -/
+theorem cheng_region (n : Nat) (Γ Γ' : List Vec) (hΓ' : Γ' ≠ []) (α : Vec) (hα : α ∈ Γ) (ε : Rat)
+    (L : List (Rat × Vec)) (h0 : ∀ p ∈ L, 0 ≤ p.1) (h1 : (L.map (fun p => p.1)).sum = 1)
+    (hreg : ∀ p ∈ L, dot n p.2 α = env n Γ p.2)
+    (hex : ∀ p ∈ L, env n Γ' p.2 ≤ env n Γ p.2 + ε) :
+    env n Γ' (combo n L) ≤ env n Γ (combo n L) + ε := by
+  calc env n Γ' (combo n L) ≤ (L.map (fun p => p.1 * env n Γ' p.2)).sum := env_convex n Γ' hΓ' L h0
+    _ ≤ (L.map (fun p => p.1 * (dot n p.2 α + ε))).sum :=
+        wsum_le L (fun x => env n Γ' x) (fun x => dot n x α + ε) h0 (fun p hp => by rw [hreg p hp]; exact hex p hp)
+    _ = dot n (combo n L) α + ε := by
+        have := wsum_add_const L (fun x => dot n x α) ε
+        rw [this, h1, one_mul, dot_combo]
+    _ ≤ env n Γ (combo n L) + ε := by have := env_ge n Γ (combo n L) α hα; linarith
+
+/-- the examined points `X` cover the partition induced by `Γ`: every belief is a convex combination of points of `X` that lie in one
+    common region of `Γ` (what "X ⊇ vertices of the partition" gives, by Minkowski's theorem applied to the region containing the belief) -/
+def VertexCover (n : Nat) (Γ : List Vec) (X : List Vec) : Prop :=
+  ∀ b, Simplex n b → ∃ (α : Vec) (L : List (Rat × Vec)), α ∈ Γ ∧ (∀ p ∈ L, 0 ≤ p.1) ∧ (L.map (fun p => p.1)).sum = 1 ∧
+    (∀ p ∈ L, p.2 ∈ X ∧ dot n p.2 α = env n Γ p.2) ∧ (∀ s, s < n → b.get s = (combo n L).get s)
+
+/-- **linear_support_exact_of_cover** (Cheng's theorem, given the cover): if the current set `Γ` consists of vectors of the true set `Γ'`,
+    and at every examined point the true surface is within ε of the current one (the stopping test), and the examined points cover the
+    partition, then the current set is ε-exact at EVERY belief:  env Γ ≤ env Γ' ≤ env Γ + ε.  With ε = 0: exact. -/
+theorem linear_support_exact_of_cover (n : Nat) (Γ Γ' : List Vec) (hΓ : Γ ≠ []) (hsub : ∀ α ∈ Γ, α ∈ Γ') (ε : Rat)
+    (X : List Vec) (hX : ∀ x ∈ X, env n Γ' x ≤ env n Γ x + ε) (hcov : VertexCover n Γ X) :
+    ∀ b, Simplex n b → env n Γ b ≤ env n Γ' b ∧ env n Γ' b ≤ env n Γ b + ε := by
+  intro b hb
+  have hΓ' : Γ' ≠ [] := by
+    obtain ⟨α, hα⟩ := List.exists_mem_of_ne_nil Γ hΓ
+    exact List.ne_nil_of_mem (hsub α hα)
+  refine ⟨env_mono n Γ Γ' b hΓ hsub, ?_⟩
+  obtain ⟨α, L, hα, h0, h1, hL, hbL⟩ := hcov b hb
+  rw [env_congr_left n Γ' b _ hbL, env_congr_left n Γ b _ hbL]
+  exact cheng_region n Γ Γ' hΓ' α hα ε L h0 h1 (fun p hp => (hL p hp).2) (fun p hp => hX p.2 (hL p hp).1)
+
+/-! ### the agenda loop as written -/
+
+theorem lsTop_mem : ∀ (l : List LSVertex) (t : LSVertex), lsTop l = some t → t ∈ l
+  | [], t, h => by simp [lsTop] at h
+  | [v], t, h => by simp [lsTop] at h; subst h; simp
+  | v :: w :: r, t, h => by
+    have ih := lsTop_mem (w :: r)
+    simp only [lsTop] at h
+    cases hrec : lsTop (w :: r) with
+    | none => rw [hrec] at h; simp at h; subst h; exact List.mem_cons_self
+    | some t' =>
+      rw [hrec] at h
+      simp only at h
+      split at h
+      · simp at h; subst h; exact List.mem_cons_self
+      · simp at h; subst h; exact List.mem_cons_of_mem _ (ih t' hrec)
+
+theorem lsTop_none : ∀ (l : List LSVertex), lsTop l = none → l = []
+  | [], _ => rfl
+  | [v], h => by simp [lsTop] at h
+  | v :: w :: r, h => by
+    simp only [lsTop] at h
+    cases hrec : lsTop (w :: r) with
+    | none => rw [hrec] at h; simp at h
+    | some t' => rw [hrec] at h; simp only at h; split at h <;> simp at h
+
+/-- what the `for` over the vertices guarantees -/
+theorem lsScan_spec (m : Model) (τ : Rat) (Γ : List Vec) (acc : Rat → Bool) (good : List Vec) :
+    ∀ (xs : List Vec) (ag : List LSVertex) (tr : List Vec),
+      (∀ v ∈ ag, v ∈ (lsScan m τ Γ acc good xs ag tr).1) ∧
+      (∀ v ∈ (lsScan m τ Γ acc good xs ag tr).1, v ∈ ag ∨ ∃ x, v.support = bestBackupAt m τ Γ x) ∧
+      (∀ x ∈ xs, tr.any (fun y => y == x) = true ∨ xs.any (fun y => y == x) = true ∧
+          ((∃ v ∈ (lsScan m τ Γ acc good xs ag tr).1, v.belief = x) ∨
+           acc (dot m.S x (bestBackupAt m τ Γ x) - env m.S good x) = false)) := by
+  intro xs
+  induction xs with
+  | nil => intro ag tr; simp only [lsScan]; exact ⟨fun _ h => h, fun _ h => Or.inl h, by simp⟩
+  | cons x xs ih =>
+    intro ag tr
+    by_cases ht : tr.any (fun y => y == x) = true
+    · have e : lsScan m τ Γ acc good (x :: xs) ag tr = lsScan m τ Γ acc good xs ag tr := by
+        simp only [lsScan, ht, if_true]
+      rw [e]
+      obtain ⟨h1, h2, h3⟩ := ih ag tr
+      refine ⟨h1, h2, ?_⟩
+      intro y hy
+      rcases List.mem_cons.mp hy with rfl | hy
+      · exact Or.inl ht
+      · rcases h3 y hy with h | ⟨ha, h⟩
+        · exact Or.inl h
+        · exact Or.inr ⟨by simp only [List.any_cons, ha, Bool.or_true], h⟩
+    · have e : lsScan m τ Γ acc good (x :: xs) ag tr =
+          lsScan m τ Γ acc good xs
+            (if acc (dot m.S x (bestBackupAt m τ Γ x) - env m.S good x) then
+              ag ++ [⟨x, bestBackupAt m τ Γ x, env m.S good x, dot m.S x (bestBackupAt m τ Γ x) - env m.S good x⟩] else ag)
+            (x :: tr) := by
+        simp only [lsScan, ht, Bool.false_eq_true, if_false]
+      rw [e]
+      obtain ⟨h1, h2, h3⟩ := ih (if acc (dot m.S x (bestBackupAt m τ Γ x) - env m.S good x) then
+              ag ++ [⟨x, bestBackupAt m τ Γ x, env m.S good x, dot m.S x (bestBackupAt m τ Γ x) - env m.S good x⟩] else ag) (x :: tr)
+      refine ⟨?_, ?_, ?_⟩
+      · intro v hv
+        apply h1
+        split
+        · exact List.mem_append_left _ hv
+        · exact hv
+      · intro v hv
+        rcases h2 v hv with h | h
+        · split at h
+          · rcases List.mem_append.mp h with h | h
+            · exact Or.inl h
+            · simp at h; subst h; exact Or.inr ⟨x, rfl⟩
+          · exact Or.inl h
+        · exact Or.inr h
+      · intro y hy
+        rcases List.mem_cons.mp hy with rfl | hy
+        · right
+          refine ⟨by simp, ?_⟩
+          by_cases hacc : acc (dot m.S y (bestBackupAt m τ Γ y) - env m.S good y) = true
+          · left
+            refine ⟨⟨y, bestBackupAt m τ Γ y, env m.S good y, dot m.S y (bestBackupAt m τ Γ y) - env m.S good y⟩, h1 _ ?_, rfl⟩
+            rw [if_pos hacc]; simp
+          · right; simpa using hacc
+        · rcases h3 y hy with h | ⟨ha, h⟩
+          · simp only [List.any_cons, Bool.or_eq_true] at h
+            rcases h with h | h
+            · -- y equals the head x (as vectors): it was handled at the head
+              right
+              have hyx : x = y := by simpa using h
+              subst hyx
+              refine ⟨by simp, ?_⟩
+              by_cases hacc : acc (dot m.S x (bestBackupAt m τ Γ x) - env m.S good x) = true
+              · left
+                refine ⟨⟨x, bestBackupAt m τ Γ x, env m.S good x, dot m.S x (bestBackupAt m τ Γ x) - env m.S good x⟩, h1 _ ?_, rfl⟩
+                rw [if_pos hacc]; simp
+              · right; simpa using hacc
+            · exact Or.inl h
+          · exact Or.inr ⟨by simp only [List.any_cons, ha, Bool.or_true], h⟩
+
+/-- invariant: everything held as a support is a genuine backup of Γ -/
+def LSInv (m : Model) (τ : Rat) (Γ : List Vec) (st : LSState) : Prop :=
+  (∀ g ∈ st.good, g ∈ backupAll m τ Γ) ∧ (∀ v ∈ st.agenda, v.support ∈ backupAll m τ Γ)
+
+theorem lsCorners_sound (m : Model) (hA : 0 < m.A) (τ : Rat) (Γ : List Vec) (hΓ : Γ ≠ []) :
+    ∀ s, ∀ g ∈ lsCorners m τ Γ s, g ∈ backupAll m τ Γ
+  | 0 => by simp [lsCorners]
+  | s+1 => by
+    intro g hg
+    simp only [lsCorners] at hg
+    split at hg
+    · exact lsCorners_sound m hA τ Γ hΓ s g hg
+    · rcases List.mem_append.mp hg with h | h
+      · exact lsCorners_sound m hA τ Γ hΓ s g h
+      · simp at h; subst h; exact bestBackupAt_mem m hA τ Γ hΓ _
+
+theorem lsStep_inv (m : Model) (hA : 0 < m.A) (τ : Rat) (Γ : List Vec) (hΓ : Γ ≠ []) (acc : Rat → Bool)
+    (oracle : Vec → List Vec → List Vec) (st st' : LSState) (h : LSInv m τ Γ st) (hs : lsStep m τ Γ acc oracle st = some st') :
+    LSInv m τ Γ st' := by
+  unfold lsStep at hs
+  simp only [] at hs
+  have sp := lsScan_spec m τ Γ acc st.good st.verts st.agenda st.tried
+  have hag : ∀ v ∈ (lsScan m τ Γ acc st.good st.verts st.agenda st.tried).1, v.support ∈ backupAll m τ Γ := by
+    intro v hv
+    rcases sp.2.1 v hv with h1 | ⟨x, hx⟩
+    · exact h.2 v h1
+    · rw [hx]; exact bestBackupAt_mem m hA τ Γ hΓ x
+  cases htop : lsTop (lsScan m τ Γ acc st.good st.verts st.agenda st.tried).1 with
+  | none => rw [htop] at hs; simp at hs
+  | some best =>
+    rw [htop] at hs
+    simp only [Option.some.injEq] at hs
+    subst hs
+    have hbest := hag best (lsTop_mem _ _ htop)
+    refine ⟨?_, ?_⟩
+    · intro g hg
+      rcases List.mem_append.mp hg with hg | hg
+      · exact h.1 g hg
+      · simp at hg; subst hg; exact hbest
+    · intro v hv
+      exact hag v (List.mem_of_mem_filter (List.mem_of_mem_filter hv))
+
+/-- **ls_sound** — for ANY vertex oracle, acceptance test and number of iterations: every vector LinearSupport holds is a genuine
+    backup, so the set it returns is a lower bound of the exact backup at every belief (and exact at every belief it scanned and did not
+    queue, see `ls_break_tested`). -/
+theorem ls_sound (m : Model) (hA : 0 < m.A) (τ : Rat) (Γ : List Vec) (hΓ : Γ ≠ []) (acc : Rat → Bool)
+    (oracle : Vec → List Vec → List Vec) :
+    ∀ (fuel : Nat) (st : LSState), LSInv m τ Γ st → LSInv m τ Γ (lsLoop m τ Γ acc oracle fuel st) := by
+  intro fuel
+  induction fuel with
+  | zero => intro st h; exact h
+  | succ f ih =>
+    intro st h
+    simp only [lsLoop]
+    cases hs : lsStep m τ Γ acc oracle st with
+    | none => exact ⟨h.1, by simp⟩
+    | some st' => exact ih st' (lsStep_inv m hA τ Γ hΓ acc oracle st st' h hs)
+
+/-- **ls_break_tested** — when the loop breaks (agenda empty after the scan), every vertex of the batch just examined was either examined
+    before or fails the acceptance test against the current set; with `acc d = false → d ≤ ε` this is the ε-stopping test
+    `env(backupAll Γ) x ≤ env good x + ε`. -/
+theorem ls_break_tested (m : Model) (hA : 0 < m.A) (τ : Rat) (Γ : List Vec) (hΓ : Γ ≠ []) (acc : Rat → Bool) (ε : Rat)
+    (hacc : ∀ d, acc d = false → d ≤ ε)
+    (oracle : Vec → List Vec → List Vec) (st : LSState) (hs : lsStep m τ Γ acc oracle st = none) :
+    ∀ x ∈ st.verts, st.tried.any (fun y => y == x) = true ∨ env m.S (backupAll m τ Γ) x ≤ env m.S st.good x + ε := by
+  unfold lsStep at hs
+  simp only [] at hs
+  have sp := lsScan_spec m τ Γ acc st.good st.verts st.agenda st.tried
+  cases htop : lsTop (lsScan m τ Γ acc st.good st.verts st.agenda st.tried).1 with
+  | some best => rw [htop] at hs; simp at hs
+  | none =>
+    have hemp := lsTop_none _ htop
+    intro x hx
+    rcases sp.2.2 x hx with h | ⟨_, h⟩
+    · exact Or.inl h
+    · right
+      rcases h with ⟨v, hv, _⟩ | h
+      · rw [hemp] at hv; simp at hv
+      · have := hacc _ h
+        rw [bestBackupAt_value m hA τ Γ hΓ x] at this
+        linarith
+
 end AITB.POMDP
